@@ -230,6 +230,43 @@ def _backward_slice_names(fnode, seeds):
     return seen
 
 
+def internal_data_lifecycle(run):
+    """a call starts from an empty net['_internal_data'] whenever reuse_internal_data is off (whatever an earlier call left on the
+    net), and removes it at the end unless reuse is on"""
+    from ..arrnf import ANF, C, base_of, norm_cond, roots, key as tkey, show as tshow, walk
+    ix = run.index
+    for name in ("hydraulics", "bidirectional"):
+        g = ix.func(P + "." + name)
+        run.analysed(g)
+        r = ANF(ix, g, param_alias={g.params()[0]: "net"}).run()
+        reuse = ("call", ("f", PS + ".get_net_option"), (("n", "net"), C("reuse_internal_data")), ())
+        def is_reuse0(t):
+            return t[0] == "call" and t[1] == ("f", PS + ".get_net_option") and len(t[2]) == 2 and t[2][1] == C("reuse_internal_data")
+        inits = [s_ for s_ in r.stores() if base_of(s_.base) == ("n", "net") and s_.index == (C("_internal_data"),)
+                 and s_.value[0] == "new" and s_.value[2] == "dict"]
+        ok2 = False
+        for s_ in inits:
+            if not s_.cond:
+                ok2 = True
+            elif len(s_.cond) == 1:
+                c_, p_ = norm_cond(*s_.cond[0])
+                parts = list(c_[2]) if c_[0] == "bool" and c_[1] == "or" else [c_]
+                lits = [norm_cond(x, True) for x in parts]
+                ok2 = ok2 or (p_ and any(is_reuse0(l_) and pol is False for l_, pol in lits))
+        run.ob("%s|fresh-internal-data-unless-reuse" % name, ok2,
+               "%s starts from an empty net['_internal_data'] whenever reuse_internal_data is off (not only when the entry is "
+               "missing)" % name, run.where(g, inits[0].node if inits else g.node),
+               detail="; ".join(tshow(c_)[:120] for s_ in inits for c_, _p in s_.cond))
+        pops = [c for c in r.calls() if c.fn[0] == "attr" and c.fn[2] == "pop" and roots(c.fn[1]) == {tkey(("n", "net"))}
+                and c.args[:1] == (C("_internal_data"),)]
+        def is_reuse(t):
+            return t[0] == "call" and t[1] == ("f", PS + ".get_net_option") and len(t[2]) == 2 and t[2][1] == C("reuse_internal_data") \
+                and roots(t[2][0]) == {tkey(("n", "net"))}
+        ok = any(len(c.cond) >= 1 and is_reuse(norm_cond(*c.cond[-1])[0]) and norm_cond(*c.cond[-1])[1] is False for c in pops)
+        run.ob("%s|drops-internal-data-unless-reuse" % name, ok,
+               "%s pops net['_internal_data'] when reuse_internal_data is off" % name, run.where(g, g.node))
+
+
 def r7_3(run):
     ix = run.index
     f = canonical_bsm(ix)
@@ -301,24 +338,7 @@ def r7_3(run):
         ok = any("system_data[data_order]" in s for s in srcs) and any(s.startswith("system_matrix.data = system_data") for s in srcs)
         run.ob("reuse-arm-reorders-data", ok, "the reuse arm applies the stored ordering to the fresh data", run.where(f, sp))
     # (e) stage functions drop internal data unless reuse requested
-    for name in ("hydraulics", "bidirectional"):
-        g = ix.func(P + "." + name)
-        run.analysed(g)
-        pops = [c for c in calls(g.node, "pop") if U(c.func.value) == "net" and c.args and const_str(c.args[0]) == "_internal_data"]
-        ok = False
-        for c in pops:
-            pc = path_condition(g.node, c, parents(g.node))
-            if any("reuse_internal_data" in l[0] and not l[1] for l in pc):
-                ok = True
-        run.ob("%s|drops-internal-data-unless-reuse" % name, ok,
-               "%s pops net['_internal_data'] when reuse_internal_data is off" % name, run.where(g, g.node))
-        inits = [n for n in own_walk(g.node) if isinstance(n, ast.Assign) and U(n.targets[0]).replace('"', "'") == "net['_internal_data']"]
-        ok2 = False
-        for n in inits:
-            pc = path_condition(g.node, n, parents(g.node))
-            ok2 = ok2 or any("reuse_internal_data" in l[0] or "_internal_data" in l[0] for l in pc)
-        run.ob("%s|fresh-internal-data-unless-reuse" % name, ok2,
-               "%s starts from an empty net['_internal_data'] unless reuse was requested" % name, run.where(g, g.node))
+    internal_data_lifecycle(run)
     # (f) init_options couples reuse to the update option
     io = ix.func(PS + ".init_options")
     ok = False
